@@ -83,3 +83,23 @@ PROPS["C02"]["feature_configs"] = [{"feature": "tiny_after", "judge_tiny_after":
 # C06: to_int(from_int(n)) = n with no flag for EVERY i32 and u32 n and all ten conversions back (thorough: all 2^32; quick: every 4096th)
 PROPS["C06"]["supporting_runs"] = [{"cmd": "int-roundtrip", "quick_stride": 4096,
     "what": "for every n: From<i32>/From<u32> gives coefficient |n| exponent 0, and each of the 10 conversions back returns n raising nothing; failures are handed to the judge"}]
+
+# source file -> harness operations implemented there (for the focused search after a static obligation breaks)
+FILE_OPS = {
+    "bid128_add.rs": ["addition", "subtraction", "fdim"], "bid128_mul.rs": ["multiplication"], "bid128_fma.rs": ["fused_multiply_add", "multiplication"],
+    "bid128_div.rs": ["division"], "bid128_sqrt.rs": ["square_root"], "bid128_rem.rs": ["remainder"], "bid128_fmod.rs": ["fmod"],
+    "bid128_quantize.rs": ["quantize"], "bid128_scalbn.rs": ["scaleb", "scalebln"], "bid128_scalbln.rs": ["scalebln"], "bid128_ldexp.rs": ["ldexp"],
+    "bid128_next.rs": ["next_up", "next_down", "next_after", "next_toward"], "bid128_nexttoward.rs": ["next_toward"],
+    "bid128_round_integral.rs": ["round_to_integral_exact", "round_to_integral_ties_to_even", "round_to_integral_ties_to_away",
+                                 "round_to_integral_ties_toward_negative", "round_to_integral_ties_toward_positive", "round_to_integral_ties_toward_zero", "modf"],
+    "bid128_nearbyint.rs": ["nearbyint"], "bid128_modf.rs": ["modf"], "bid128_fdim.rs": ["fdim"], "bid128_logb.rs": ["logb"], "bid128_ilogb.rs": ["log_b", "logb"],
+    "bid128_minmax.rs": ["min_num", "max_num", "min_num_mag", "max_num_mag"], "bid128_string.rs": ["convert_from_decimal_character"],
+    "bid_binarydecimal.rs": ["convert_from_f32", "convert_from_f64"], "bid128_quantexp.rs": ["quantexp"], "bid128_llquantexp.rs": ["llquantexp"],
+    "bid128_lrint.rs": ["lrint"], "bid128_llrint.rs": ["llrint"], "bid128_lround.rs": ["lround"], "bid128_llround.rs": ["llround"],
+    "bid_internal.rs": ["division", "scaleb", "ldexp", "convert_from_decimal_character", "quantize", "remainder", "fmod", "square_root", "logb"],
+    "bid_round.rs": ["fused_multiply_add", "multiplication", "addition"],
+}
+import families_ops as _fo
+FILE_OPS["bid128_compare.rs"] = _fo.CMP_OPS
+for _f in ("bid128_to_int32.rs", "bid128_to_int64.rs", "bid128_to_uint32.rs", "bid128_to_uint64.rs"):
+    FILE_OPS[_f] = [o for o in _fo.TO_INT_OPS if ("_" + _f[10:-3].replace("uint", "u").replace("int", "i") + "_") in o]
